@@ -328,6 +328,11 @@ def r17(rr, repo):
             return 'samefile' in t and p
         ident = [t for t, p in g if same_file(t, p)]
         rr.ob('a socket file is removed only after it was identified as the one this instance bound (inode noted at bind)', bool(ident), za.mod, c, witness=(ident[0] if ident else str(g))[:140], key='ipc-unlink-own-file-only')
+    for c in unlinks:
+        g = q.effective_guards(c, za.S_destroy)
+        more = [t for t, p in g if 'st_ino' in t and any(x in t for x in ('st_ctime', 'st_mtime', 'st_birthtime', 'samefile'))]
+        rr.ob('the identity compared is more than the inode NUMBER (a file system re-uses the number of a file that was just removed for the next one created: the successor\'s files)', bool(more), za.mod, c,
+              witness=(more[0] if more else str([t for t, p in g if 'st_ino' in t]))[:150], key='ipc-identity-more-than-inode-number')
     if unlinks:
         noted = [n for n in ast.walk(za.S_init) if isinstance(n, ast.Assign) and 'st_ino' in U(n.value)]
         rr.ob('the identity of the socket files is noted when they are bound', bool(noted) and any(n.lineno > min(c.lineno for c in q.calls_in(za.S_init) if 'bind' in U(c)) for n in noted), za.mod,
